@@ -1,4 +1,5 @@
 import LanceModel.C41.SpillRun
+import LanceModel.C41.SpillLive
 import LanceModel.C41.ChunkRun
 /-!
 C41 — Replay spills and stream chunking deliver every batch exactly once.
@@ -152,6 +153,26 @@ theorem reader_not_blocked (limit : Nat) (sched : List Step) (i : Nat) :
       · split <;> simp
       · split <;> simp
 
+/-- **reader_completes** (progress): in every reachable state in which `finish()` has been published and no error
+    was sent, every reader that has not failed — whether it was never polled, is in the middle of the in-memory
+    batches, or is anywhere inside its file operations — ends after finitely many further polls (at most `nu`, which
+    is linear in the number of batches), and then it has been given exactly the written batches. -/
+theorem reader_completes (limit : Nat) (sched : List Step) (i : Nat) :
+    let s := run (init limit) sched
+    s.status.finished = true → s.status.error = false → (∀ k, (s.rd i).pc ≠ .failed k) →
+    ∃ k, k ≤ nu s (s.rd i) ∧
+      ((run (init limit) (sched ++ pollSched i k)).rd i).pc = .ended ∧
+      ((run (init limit) (sched ++ pollSched i k)).rd i).out = s.log := by
+  intro s hfin herr hnf
+  have hF : Fin s := ⟨inv_run (inv_init limit) sched, hfin, herr⟩
+  obtain ⟨k, hk, hend⟩ := completes_aux (nu s (s.rd i)) s i hF hnf (Nat.le_refl _)
+  refine ⟨k, hk, ?_, ?_⟩
+  · rw [run_append]; exact hend
+  · have h1 := reader_sees_all limit (sched ++ pollSched i k) i (by rw [run_append]; exact hend)
+    rw [h1, run_append]
+    have hc : s.st.closed = true := hF.inv.g.finClosed hfin
+    exact (closed_run (pollSched i k) hc).2
+
 /-! ### non-vacuity: concrete schedules in which readers do end, in memory and through the file -/
 
 private def b0 : Batch := ⟨0, 3, 1, 12⟩
@@ -186,6 +207,11 @@ example : ((run (init 16) schedMixed).rd 0).pc = .ended ∧ ((run (init 16) sche
 /-- limit 1000: nothing is spilled -/
 example : ((run (init 1000) [.wstart b0, .rpoll 0, .wstart b1, .fstart, .rpoll 0, .rpoll 0, .rpoll 1, .rpoll 1, .rpoll 1]).rd 1).pc = .ended ∧
     (run (init 1000) [.wstart b0, .rpoll 0, .wstart b1, .fstart, .rpoll 0, .rpoll 0, .rpoll 1, .rpoll 1, .rpoll 1]).file = none := by decide
+
+/-- hypotheses of `reader_completes`: finished, no error, reader 1 in the middle of its file operations -/
+example : (run (init 0) [.wstart b0, .wio, .wio, .wpub, .fstart, .wio, .wpub, .rpoll 1, .rio 1]).status.finished = true ∧
+    (run (init 0) [.wstart b0, .wio, .wio, .wpub, .fstart, .wio, .wpub, .rpoll 1, .rio 1]).status.error = false ∧
+    ((run (init 0) [.wstart b0, .wio, .wio, .wpub, .fstart, .wio, .wpub, .rpoll 1, .rio 1]).rd 1).pc = .reading := by decide
 
 /-- a reader in the `reading` state exists (hypothesis of `no_premature_eof`) -/
 example : ((run (init 0) [.wstart b0, .wio, .wio, .wpub, .rpoll 0, .rio 0]).rd 0).pc = .reading := by decide
